@@ -129,7 +129,7 @@ def gen_layout(rng, gap):
             cur = []
     if cur:
         groups.append(cur)
-    if rng.random() < 0.08 and len(groups) >= 2:
+    if rng.random() < 0.08 and len(groups) >= 2 and not use_doy:     # ({doy} above {year}: KeyError in typhon)
         rng.shuffle(groups)                                      # finer before coarser (in hypothesis after fix C01_1)
         if not set(groups[0]) & {"year", "month", "day"}:        # a time of day before any date: refused by typhon
             groups.sort(key=lambda g: FIELD_ORDER.index(g[0]))
@@ -740,10 +740,10 @@ def check_single(ctx, n):
 
 def run(ctx):
     ctx.prove("Props/C01.v")
-    n_main = ctx.n(110, 2400)
-    n_long = ctx.n(12, 250)
-    n_gap = ctx.n(8, 150)
-    n_zip = ctx.n(0, 300)
+    n_main = ctx.n(110, 1300)
+    n_long = ctx.n(12, 130)
+    n_gap = ctx.n(8, 80)
+    n_zip = ctx.n(0, 160)
     cases = [gen_case(ctx.rng, k, "main") for k in range(n_main)]
     cases += [gen_case(ctx.rng, n_main + k, "long") for k in range(n_long)]
     cases += [gen_case(ctx.rng, n_main + n_long + k, "gap") for k in range(n_gap)]
@@ -782,6 +782,8 @@ def run(ctx):
         "hypotheses of find_sound_complete, evaluated per case inside Coq: no_gaps layout, every file rendered into "
         "the directory of its start time, coverage no longer than one period of the finest directory level, valid "
         "datetimes, start < end, start = datetime.min or start >= datetime.min + look-back, excluded periods well formed",
+        "a {doy} directory level is never above the {year} level (typhon needs the year to resolve the day of the "
+        "year and raises KeyError otherwise; the Coq layout only sees doy as month + day)",
         "user placeholder values are alphabetic words none of which is a prefix of another (the black list uses re.match)",
         "string bundles are tick frequencies (30min, 1h, 6h, 7h, 1D, 2D) and are compared in full only with sort=True",
     ]
